@@ -36,7 +36,7 @@ func init() {
 		Assumptions: []string{"a key whose hand-over attempt was answered with an error by the mechanism creates no further obligation (as stated)"},
 		Real:        []string{"keyper.eonPubKeyHandler (Start, loop, queryAndHandleNewEonPubKeys, broadcastEonPublicKey)", "GetAndDeleteEonPublicKeys query", "p2p.SendMessage", "pgx"},
 		Stub:        []string{"PostgreSQL (pgsim)", "libp2p (simnet)", "the DKG (rows are committed by the generator the way finalizeDKG commits them)"},
-		QuickRuns:   400, ThoroughRuns: 40000, QuickMinimize: 60, ThoroughMinimize: 300,
+		QuickRuns:   2000, ThoroughRuns: 40000, QuickMinimize: 60, ThoroughMinimize: 300,
 	})
 }
 
